@@ -28,6 +28,26 @@ def oracle_serial(r: dict) -> list[str]:
                 msgs.append(f'hook call with wrong state/context: {h}')
                 c = '?'
             word += c
+    # a second plugin registered / unregistered by reg2 / unreg2: from the next hook call on it receives what the first one receives
+    registered = False
+    for op, rep in zip(r['ops'], r['impl']):
+        toks = rep.split()
+        if 'r2:REFUSED' in toks:
+            msgs.append(f'{op!r}: registering a plugin (again) between runs was refused')
+        if 'r2:NOT-FOUND' in toks:
+            msgs.append(f'{op!r}: unregistering a registered plugin failed')
+        if op == 'reg2' and rep != 'skipped':
+            registered = True
+            continue
+        if op == 'unreg2' and rep != 'skipped':
+            registered = False
+            continue
+        h1 = [t[3:].split('/')[0] for t in toks if t.startswith('hk:')]
+        h2 = [t[3:] for t in toks if t.startswith('h2:')]
+        if registered and sorted(h1) != sorted(h2):
+            msgs.append(f'{op!r}: the plugin registered later received {h2}, the first one {h1}')
+        if not registered and h2:
+            msgs.append(f'{op!r}: an unregistered plugin still received {h2}')
     if not PROTO.match(word.replace('?', 'X')):
         msgs.append(f'hook log {word!r} does not follow the protocol (I S P* E F per run)')
     return msgs
